@@ -639,6 +639,29 @@ def body(ctx):
                                 f"regular{freq}")
                 run_wrapper_case({**base, "kind": "wrapper", "variants": pick_variants(secs, 2)}, f"regular{freq}")
 
+    # series whose wall-clock stamps span a daylight-saving "spring forward" (the local hour 02:00-03:00 does not
+    # exist that day; wall-clock stamps stay non-decreasing): the result must be that of the naive wall-clock index
+    import calendar as _cal
+    SPRING = [("Australia/Sydney", (2024, 10, 6)), ("America/New_York", (2024, 3, 10)), ("Europe/Paris", (2024, 3, 31)),
+              ("Australia/Sydney", (2021, 10, 3)), ("America/New_York", (2022, 3, 13))]
+    for it in range(ctx.scale(60, 600)):
+        tzname, (yy, mm, dd) = rng.choice(SPRING)
+        midnight = _cal.timegm((yy, mm, dd, 0, 0, 0))
+        t = midnight - rng.randint(1, 6) * 3600 + rng.randint(0, 3599)
+        end = midnight + rng.randint(4, 10) * 3600
+        secs = []
+        while t < end:
+            if not (midnight + 2 * 3600 <= t < midnight + 3 * 3600):
+                secs.append(t)
+            t += rng.choice([300, 600, 900, 1800, rng.randint(1, 4000)])
+        if len(secs) < 3:
+            continue
+        vals = [rng.uniform(0, 10) for _ in secs]
+        P, rain = rng.choice([1800, 3600]), rng.choice([0, 1])
+        base = {"secs": secs, "vals": enc_vals(vals), "P": P, "rain": rain, "maxgap": 432000, "gen": "dst_spring_forward/" + tzname}
+        run_wrapper_case({**base, "kind": "wrapper", "variants": [("ns", None), (rng.choice(UNITS), tzname), ("us", "UTC")]},
+                         "dst_spring_forward")
+
     # ---------------- malformed stream
     for it in range(ctx.scale(300, 3000)):
         maxgap = rng.choice([3600, 86400])
